@@ -40,7 +40,8 @@ META = {
                 '(incl. no state carried from one address entry to the next '
                 'while the list is parsed)',
                 'D3 loss sequence', 'D4 no iteration of live containers '
-                'while calling out', 'D5 proxy registry',
+                'while calling out', 'D5 proxy registry (members compare by '
+                'identity)',
                 'D6 callback / pending registries are per instance (no '
                 'class-level mutable container mutated through self)'],
     'undecided': ['reachability of addresses, address-list parsing details',
